@@ -5,8 +5,11 @@
 (*   mem <= low water mark   =>  threshold = LowMemUsageThreshold          *)
 (*   mem >= high water mark  =>  threshold = HighMemUsageThreshold         *)
 (*   in between              =>  linear interpolation, monotone, in range  *)
-(* A rule is r = [low, high, lw, hw]: thresholds low > high > 0, water     *)
-(* marks 0 < lw < hw (what IsValidRule accepts).                           *)
+(* A rule is r = [low, high, lw, hw, cb]: thresholds low > high > 0, water *)
+(* marks 0 < lw < hw (what IsValidRule accepts), control behaviour cb      *)
+(* (0 = Reject: the threshold caps the tokens of the window, 1 =           *)
+(* Throttling: it spaces the admissions by 1/threshold).  The envelope is  *)
+(* about the effective threshold, whatever enforces it.                    *)
 (* Constant-free: used by MemAdaptive (model checking) and                 *)
 (* MemAdaptive_Trace (validation of executions of the real code).          *)
 (***************************************************************************)
@@ -19,8 +22,11 @@ Eff(r, mem) ==
     ELSE \* (high - low) / (hw - lw) * (mem - lw) + low
          [n |-> (r.high - r.low) * (mem - r.lw) + r.low * (r.hw - r.lw), d |-> r.hw - r.lw]
 Valid(r) == r.low > 0 /\ r.high > 0 /\ r.high < r.low /\ r.lw > 0 /\ r.hw > 0 /\ r.lw < r.hw
-\* number of single-token requests a reject checker admits at one instant into an empty window: floor(threshold)
-Admits(r, mem) == LET e == Eff(r, mem) IN e.n \div e.d
+\* the admitted rate that shows the threshold, per second of saturating single-token demand:
+\*   reject:     requests admitted at one instant into an empty window: floor(threshold)
+\*   throttling: admissions spaced by 1/threshold starting with an immediate one (nothing owed to earlier admissions):
+\*               at 0, 1/thr, 2/thr, ... < 1 s, i.e. ceil(threshold)
+Admits(r, mem) == LET e == Eff(r, mem) IN IF r.cb = 1 THEN (e.n + e.d - 1) \div e.d ELSE e.n \div e.d
 \* the rational threshold is a whole number (float rounding may then admit one token less)
 Whole(r, mem)  == LET e == Eff(r, mem) IN e.n % e.d = 0
 
